@@ -699,7 +699,9 @@ func (fr *Frame) callWithContract(st *State, c *FuncContract, fn *ssa.Function, 
 				x.storePath(st, p, x.freshVal(p.Cell.name, p.Ty))
 			}
 			if cl, ok := a.X.(*Closure); ok {
-				if mode := c.Calls[pnameOf(pnames, args, a)]; mode == "" {
+				if mode := c.Calls[pnameOf(pnames, args, a)]; mode == "" || mode == "pure" {
+					// (`calls P pure` is an assumption for verifying the callee's own
+					// body; a caller's closure may well write what it captured)
 					for bi, b := range cl.bindings {
 						if bi < len(cl.fn.FreeVars) && !freeVarMayBeWritten(cl.fn, cl.fn.FreeVars[bi], 0) {
 							continue // the closure only reads this captured variable
